@@ -12,6 +12,7 @@
 //! abort) is still reported as a violation, not as a dead harness. A failure that only shows up
 //! after other cases ran in the same process (process-global state: the variable-id counter) is
 //! reported as a failing *sequence* of cases, replayed on one thread of a fresh process.
+#![recursion_limit = "512"]
 mod ast;
 mod builder;
 mod checks;
